@@ -78,7 +78,7 @@ bool sim_fault(const char *kind, Fault &out) {
     if (!t_op || !t_op->op) return false;
     int n = t_op->kind_count[kind]++;
     for (auto &f : t_op->op->faults)
-        if (f.nth == n && f.kind == kind) {
+        if ((f.nth == n || (f.sticky && n > f.nth)) && f.kind == kind) {
             out = f; if (t_op->obs) t_op->obs->fired.push_back(f);
             G.counters[std::string("fault:") + kind]++;
             return true;
